@@ -105,7 +105,7 @@ def _second_run(obs, spec, second, lab, built, ctl, backend_kind, storage, stora
         lab_b = lab
     else:
         backend2 = ControlledBackend(ctl) if backend_kind == 'controlled' else SpyBackend(backend_kind, ctl)
-        lab_b = labtech.Lab(storage=lab._storage, continue_on_failure=lab.continue_on_failure, max_workers=lab.max_workers,
+        lab_b = labtech.Lab(storage=lab._storage, continue_on_failure=second.get('continue_on_failure', lab.continue_on_failure), max_workers=lab.max_workers,
                             context=context2, runner_backend=backend2, notebook=False)
     ctl.deadline = time.monotonic() + deadline_s
     sink = open(os.path.join(d, 'display2.txt'), 'w')
